@@ -1,5 +1,6 @@
 import inspect
 import sys
+import threading
 from typing import Callable, Dict, List, Optional, Set, Tuple, Type, Union, Any
 
 from ..utils import exceptions as exc
@@ -82,6 +83,7 @@ class BaseParser:
         self.addition_type = None
         self.name = get_obj_name(obj)
         self.is_local = is_local_var(obj)
+        self._forward_refs_lock = threading.RLock()
         self.setup()
 
     def make_context(self, context=None, force_error: bool = False):
@@ -211,7 +213,17 @@ class BaseParser:
     def resolve_forward_refs(self, local_vars=None, ignore_errors: bool = True):
         if not self.forward_refs:
             return False
+        with self._forward_refs_lock:
+            # the first-use resolution rewrites shared state (references, field types): one thread performs it,
+            # the others wait here and then find nothing left to do. The resolved names are only removed once
+            # everything is in place, so the unlocked check above never lets a caller in too early
+            return self._resolve_forward_refs(local_vars=local_vars, ignore_errors=ignore_errors)
+
+    def _resolve_forward_refs(self, local_vars=None, ignore_errors: bool = True):
+        if not self.forward_refs:
+            return False
         clear_refs = []
+        resolved_names = []
         resolved = False
         # todo: add resolve hooks so that application code can execute lazy-load type process logic
         for name in list(self.forward_refs):
@@ -252,7 +264,7 @@ class BaseParser:
                     resolved = True
                     if self.is_local:
                         clear_refs.append(ref)
-                    self.forward_refs.pop(name, None)
+                    resolved_names.append(name)
             except Exception:
                 if ignore_errors:
                     continue
@@ -271,6 +283,8 @@ class BaseParser:
             for ref in clear_refs:
                 ref.__forward_evaluated__ = False
                 ref.__forward_value__ = None
+        for name in resolved_names:
+            self.forward_refs.pop(name, None)
         return resolved
 
     def resolve_extra_forward_types(self):
